@@ -46,6 +46,9 @@ CHECKS = {
  "C12": ("model_checking", "stateless exhaustive DFS over choice sequences (top-level steps x re-entrant reactions inside slots) on the real implementation with a lockstep reference model",
          "every program of up to 4 (5) top-level steps with up to 3 re-entrant reactions (connect/disconnect/emit/destroy inside slots, nesting to 3-4) over 1-2 emitters, 1-2 signals, 2-3 listeners, 1-2 slots; every invocation, every returning emission and both sides' bookkeeping are decided against the model, destroyed objects by ASan",
          "bounded numbers of objects, steps and reactions", "DESIGN.md §4 C12"),
+ "C13": ("model_checking", "stateless exhaustive DFS over choice sequences of environment answers (send outcomes, peer reads, time) and application actions on the real Server/Socket code with intercepted send/epoll_wait/clock",
+         "every sequence of 4 (5) application turns over {write 1/3/8, suspend, resume, peer write, nothing} combined with every placement of <= 2 (3) non-default OS answers (would-block, partial 1 / n/2 / n-1, peer reads nothing / one byte); stream integrity, postponed/backlog size, onWrite accounting and suspension are decided on each; a descriptor that answered would-block stays unwritable until time advances so that backlogs persist across application turns",
+         "real kernel socket pair + epoll readiness; no error injection here", "DESIGN.md §4 C13"),
  "C15": ("exploration", "exhaustive enumeration of token strings / value trees / symbol strings on the real parser, serialiser and comment stripper under ASan",
          "every token string up to 5 (6) tokens over a 32-token alphabet, every value tree up to 4 (5) nodes, every stripComments input up to 8 (10) symbols; totality, bounds, error position, round trip and comment removal are decided on each",
          "alphabets and sizes are bounded; Variant == decides tree equality", "DESIGN.md §4 C15"),
